@@ -45,6 +45,7 @@ K(j)    == <<"k", j>>
 ZeroV   == <<"z">>
 
 NoPend  == <<>>
+ReshapeReuseOpen == FALSE
 Contiguous(cs) == LET R == Range(cs) IN SetMax(R) - SetMin(R) + 1 = Cardinality(R)
 
 St == [heap |-> heap, allocs |-> allocs, live |-> live]
@@ -427,7 +428,14 @@ Deliver(S, shape, ord, vals, mode, d, u, et, mayRefuse) ==
       [] mode = "reuse"  ->
             LET D == S.live[d]
             IN IF Len(D.cells) # Len(vals) THEN Err(S)
-               ELSE IF D.shape # shape THEN Free(S)
+               ELSE IF D.shape # shape
+                    THEN (* a reuse tensor of the right size but another shape is re-laid-out by the library (documented):
+                            it becomes a plain tensor of the result's shape over its own storage, a pending transposition
+                            is dropped.  Only for tensors that own their storage; a view is left open *)
+                         IF D.view \/ ReshapeReuseOpen THEN Free(S)
+                         ELSE LET cs == SortedSeq(Range(D.cells))
+                                  S1 == SetLive(S, d, [D EXCEPT !.shape = shape, !.cells = cs, !.pend = NoPend, !.wide = FALSE])
+                              IN Out(WriteCells(S1, cs, vals), Res("ok", TRUE, d, <<>>, <<>>))
                ELSE Out(WriteCells(S, D.cells, vals),
                         Res("ok", mayRefuse \/ D.view \/ D.pend # NoPend, d, <<>>, <<>>))
       [] mode = "incr"   ->
